@@ -170,6 +170,43 @@ Proof.
   unfold pname. rewrite lc_app, lc_rev. reflexivity.
 Qed.
 
+(* ---- spelling of node names *)
+Definition Inv_sp (z : zone) (R : list record) : Prop :=
+  forall p n d, view p (z_apex z) = Some (n, d) -> n = spelled apex R (pname p).
+
+Lemma find_app_l {A} (P : A -> bool) l1 l2 :
+  find P (l1 ++ l2) = match find P l1 with Some x => Some x | None => find P l2 end.
+Proof. induction l1 as [|x l1 IH]; simpl; auto. destruct (P x); auto. Qed.
+
+Lemma find_none_existsb {A} (P : A -> bool) l : existsb P l = false -> find P l = None.
+Proof.
+  induction l as [|x l IH]; simpl; auto. destruct (P x); simpl; [discriminate|auto].
+Qed.
+
+Lemma spelled_snoc_exists R r m : exists_name apex R m = true ->
+  spelled apex (R ++ [r]) m = spelled apex R m.
+Proof.
+  unfold exists_name, spelled. intros H. destruct (name_eqb m (lc apex)); auto. simpl in H.
+  rewrite find_app_l.
+  destruct (find (fun r0 => is_suffixb m (lc (r_owner r0))) R) eqn:F; auto.
+  exfalso. apply existsb_exists in H. destruct H as (x & Hx & Hs).
+  apply (find_none _ _ F) in Hx. congruence.
+Qed.
+
+Lemma spelled_snoc_fresh R r m : exists_name apex R m = false ->
+  is_suffixb m (lc (r_owner r)) = true ->
+  spelled apex (R ++ [r]) m = skipn (length (r_owner r) - length m) (r_owner r).
+Proof.
+  unfold exists_name, spelled. intros H Hs. apply orb_false_iff in H. destruct H as [H1 H2].
+  rewrite H1, find_app_l, (find_none_existsb _ _ H2). simpl. rewrite Hs. reflexivity.
+Qed.
+
+Lemma Inv_sp_new wide : Inv_sp (zone_new apex cls wide) [].
+Proof.
+  intros p n d V. simpl z_apex in V. rewrite view_node_new in V. destruct p; [|discriminate].
+  inversion V; subst. unfold spelled, pname. simpl. rewrite name_eqb_refl. reflexivity.
+Qed.
+
 (* ---- one add *)
 Lemma usub_ok a b : b <= a -> usub a b = Ok (a - b).
 Proof. intros H. unfold usub. apply Nat.leb_le in H. rewrite H. reflexivity. Qed.
@@ -202,15 +239,16 @@ Definition state_after (R : list record) (r : record) : list record :=
 Lemma zone_add_step z R r : Inv z R ->
   exists z', zone_add req z r = Ok (z', add_verdict apex cls R r) /\
              Inv z' (state_after R r) /\
-             (add_verdict apex cls R r <> None -> z' = z).
+             (add_verdict apex cls R r <> None -> z' = z) /\
+             (Inv_sp z R -> Inv_sp z' (state_after R r)).
 Proof.
   intros (Hn & Hc & Hv). unfold zone_add, add_verdict, state_after.
   rewrite Hn, Hc, eq_or_subdomain_of_in_zone.
   unfold add_verdict.
   destruct (in_zone apex (r_owner r)) eqn:Z; cbn [negb].
-  2:{ exists z. split; auto. split; [split; auto|auto]. }
+  2:{ exists z. split; auto. split; [split; auto|split; auto]. }
   destruct (r_class r =? cls)%N eqn:C; cbn [negb].
-  2:{ exists z. split; auto. split; [split; auto|auto]. }
+  2:{ exists z. split; auto. split; [split; auto|split; auto]. }
   apply N.eqb_eq in C.
   destruct (in_zone_split _ Z) as (Hl & Hla & Ho). set (level := length (r_owner r) - length apex) in *.
   unfold name_len. rewrite usub_ok by lia. cbn [bind].
@@ -232,7 +270,7 @@ Proof.
   destruct (ttl_ok R r) eqn:T; cbn [negb].
   - destruct Hadd as (d' & Hfd & Hok').
     rewrite Hup. cbn [bind]. unfold err_of. rewrite Hfd.
-    eexists; split; [reflexivity|]. split; [|congruence].
+    eexists; split; [reflexivity|]. split; [|split; [congruence|]].
     split; [unfold zone_name; simpl; rewrite Hname; exact Hn|]. split; [reflexivity|]. simpl z_apex.
     intros p. rewrite Hview. specialize (Hv p). unfold node_ok in Hv.
     assert (Epre : prefixb p d = is_suffixb (pname p) (lc (r_owner r))) by (apply prefix_suffix; auto).
@@ -273,6 +311,19 @@ Proof.
       { apply name_eqb_neq. intros E. rewrite <- E, is_suffixb_refl in Sx. discriminate. }
       destruct (view p (z_apex z)) as [[n0 d0]|]; auto.
       destruct Hv as (H1 & H2 & H3). split; auto. split; auto. apply rrsets_ok_other; auto.
+    + (* spelling of the node names *)
+      intros Hsp p n dd Vp. simpl z_apex in Vp. rewrite Hview in Vp.
+      assert (Epre : prefixb p d = is_suffixb (pname p) (lc (r_owner r))) by (apply prefix_suffix; auto).
+      pose proof (Hv p) as Hvp. unfold node_ok in Hvp.
+      destruct (prefixb p d) eqn:Pp.
+      * inversion Vp; subst n. unfold viewd.
+        destruct (view p (z_apex z)) as [[n0 d0]|] eqn:V0; simpl.
+        -- rewrite (Hsp p n0 d0 V0). symmetry. apply spelled_snoc_exists. tauto.
+        -- rewrite spelled_snoc_fresh; auto. f_equal.
+           pose proof (prefixb_length _ _ Pp) as Lp. rewrite Ld in Lp.
+           unfold pname. rewrite lc_length, app_length, rev_length. unfold level in *. lia.
+      * destruct (view p (z_apex z)) as [[n0 d0]|] eqn:V0; [|discriminate]. inversion Vp; subst.
+        rewrite (Hsp p n dd V0). symmetry. apply spelled_snoc_exists. tauto.
   - (* TTL mismatch: the target exists, nothing is created, the tree is unchanged *)
     assert (Hex : exists n0 d0, view d (z_apex z) = Some (n0, d0)).
     { destruct (view d (z_apex z)) as [[n0 d0]|] eqn:V; eauto.
@@ -280,7 +331,7 @@ Proof.
     destruct Hex as (n0 & d0 & V).
     unfold viewd in Hadd. rewrite V in Hadd. simpl in Hadd.
     rewrite (node_update_err_same f level (r_owner r) (z_apex z) n0 d0 TtlMismatch Hl V Hadd).
-    cbn [bind]. exists z. split; [|split; [split; auto|auto]].
+    cbn [bind]. exists z. split; [|split; [split; auto|split; auto]].
     clear - Hc. destruct z as [zc zw za]. simpl in *. subst zc. reflexivity.
 Qed.
 
@@ -303,6 +354,21 @@ Proof.
   - eauto.
   - destruct (zone_add_step z R r H) as (z1 & Hadd & Hinv & _). rewrite Hadd.
     apply IH. exact Hinv.
+Qed.
+
+Lemma zone_build_inv_sp rs : forall z R z', Inv z R -> Inv_sp z R ->
+  zone_build req z rs = Some z' -> Inv_sp z' (fold_left state_after rs R).
+Proof.
+  induction rs as [|r rs IH]; intros z R z' H Hs B; simpl in *.
+  - inversion B; subst. exact Hs.
+  - destruct (zone_add_step z R r H) as (z1 & Hadd & Hinv & _ & Hsp). rewrite Hadd in B.
+    eapply IH; eauto.
+Qed.
+
+Lemma zone_build_new_sp rs wide z :
+  zone_build req (zone_new apex cls wide) rs = Some z -> Inv_sp z (accepted apex cls rs).
+Proof.
+  unfold accepted. rewrite accepted_fold. apply zone_build_inv_sp; [apply Inv_new|apply Inv_sp_new].
 Qed.
 
 Lemma zone_build_new rs wide :
